@@ -2,6 +2,7 @@
 //   new cls= enc= type=          fresh section in a created elfio           -> size=N
 //   loadsec cls= enc= lazy= type= data=HEX   table with these bytes, loaded from a saved file -> size=N
 //   set HEX                      section::set_data (exact allocation, maybe unterminated) -> size=N
+//   setsize N                    section::set_size (generated for NOBITS sections only: a .bss-like size without data) -> size=N
 //   add HEX | adds HEX | addnull add_string(const char*) / (const std::string&) / (nullptr) -> idx=I size=N
 //   get I | cget I | getr K      get_string(I) / via the const accessor / of the K-th returned index
 //                                -> null | str off=O s=HEX | outside | unterminated off=O
@@ -17,7 +18,7 @@ struct Ctx
     std::unique_ptr<elfio>              elf;
     std::unique_ptr<std::istringstream> stream; // kept alive for lazily loaded objects
     section*                            sec = nullptr;
-    std::string                         name;
+    Elf_Half                            index = 0; // found again by index: independent of the name table
     std::vector<Elf_Word>               idxs;
 };
 
@@ -51,7 +52,7 @@ static bool load_from( Ctx& c, const std::string& image, bool lazy, FILE* out )
     }
     c.elf    = std::move( elf ); // the old object goes first, then the stream it may still read from
     c.stream = std::move( stream );
-    c.sec    = c.elf->sections[c.name];
+    c.sec    = c.index < c.elf->sections.size() ? c.elf->sections[c.index] : nullptr;
     if ( !c.sec ) {
         fprintf( out, "bad-op section-lost\n" );
         return false;
@@ -71,14 +72,14 @@ static void run_case( const std::vector<Toks>& ops, FILE* out )
             std::string   e;
             unsigned char enc = ( kv( t, "enc", e ) && e == "msb" ) ? ELFDATA2MSB : ELFDATA2LSB;
             Elf_Word      ty  = (Elf_Word)kvn( t, "type", SHT_STRTAB );
-            c.name            = ".tbl";
             c.idxs.clear();
             if ( op == "new" ) {
                 c.elf = std::make_unique<elfio>();
                 c.elf->create( cls, enc );
                 c.elf->set_type( ET_REL );
-                c.sec = c.elf->sections.add( c.name );
+                c.sec = c.elf->sections.add( ".tbl" );
                 c.sec->set_type( ty );
+                c.index = c.sec->get_index();
                 fprintf( out, "size=%llu\n", (unsigned long long)c.sec->get_size() );
                 fflush( out );
             }
@@ -89,8 +90,9 @@ static void run_case( const std::vector<Toks>& ops, FILE* out )
                 elfio       w;
                 w.create( cls, enc );
                 w.set_type( ET_REL );
-                section* s = w.sections.add( c.name );
+                section* s = w.sections.add( ".tbl" );
                 s->set_type( ty );
+                c.index = s->get_index();
                 s->set_data( data.data(), data.size() );
                 std::ostringstream os;
                 if ( !w.save( os ) ) {
@@ -108,6 +110,10 @@ static void run_case( const std::vector<Toks>& ops, FILE* out )
         if ( op == "set" && t.size() == 2 ) {
             std::string d = unhex( t[1] );
             c.sec->set_data( d.data(), d.size() );
+            fprintf( out, "size=%llu\n", (unsigned long long)c.sec->get_size() );
+        }
+        else if ( op == "setsize" && t.size() == 2 ) {
+            c.sec->set_size( num( t[1] ) );
             fprintf( out, "size=%llu\n", (unsigned long long)c.sec->get_size() );
         }
         else if ( ( op == "add" || op == "adds" ) && t.size() == 2 ) {
